@@ -310,16 +310,22 @@ fn single_cases(g: &mut Gen, rng: &mut Sm, c: &Ctx, per_instr: usize, exhaustive
     for ins in &c.plain {
         let mut n = 0;
         // pairs of boundary ints (exhaustive over the list when asked), with a third sentinel below
-        let pairs: Vec<(i64, i64)> = if exhaustive_pairs {
-            IVALS.iter().flat_map(|x| IVALS.iter().map(move |y| (*x, *y))).collect()
+        // the core boundary values are always paired exhaustively; the long lists are sampled (quick) or
+        // paired exhaustively too (thorough)
+        const ICORE: &[i64] = &[i64::MIN, i64::MIN + 1, -2, -1, 0, 1, 2, 63, 64, i64::MAX - 1, i64::MAX];
+        let fcore: Vec<u64> = [f64::NAN, f64::INFINITY, f64::NEG_INFINITY, 0.0, -0.0, 1.0, -1.0, f64::MAX, 5e-324, 9223372036854775807.0, 0.5]
+            .iter()
+            .map(|f| fbits(*f))
+            .collect();
+        let mut pairs: Vec<(i64, i64)> = ICORE.iter().flat_map(|x| ICORE.iter().map(move |y| (*x, *y))).collect();
+        let mut fpairs: Vec<(u64, u64)> = fcore.iter().flat_map(|x| fcore.iter().map(move |y| (*x, *y))).collect();
+        if exhaustive_pairs {
+            pairs.extend(IVALS.iter().flat_map(|x| IVALS.iter().map(move |y| (*x, *y))));
+            fpairs.extend(c.fv.iter().flat_map(|x| c.fv.iter().map(move |y| (*x, *y))));
         } else {
-            (0..per_instr).map(|_| (*rng.pick(IVALS), *rng.pick(IVALS))).collect()
-        };
-        let fpairs: Vec<(u64, u64)> = if exhaustive_pairs {
-            c.fv.iter().flat_map(|x| c.fv.iter().map(move |y| (*x, *y))).collect()
-        } else {
-            (0..per_instr).map(|_| (*rng.pick(&c.fv), *rng.pick(&c.fv))).collect()
-        };
+            pairs.extend((0..per_instr).map(|_| (*rng.pick(IVALS), *rng.pick(IVALS))));
+            fpairs.extend((0..per_instr).map(|_| (*rng.pick(&c.fv), *rng.pick(&c.fv))));
+        }
         let tag = ins.list().unwrap()[0].int().unwrap();
         let uses_float = matches!(tag, 19 | 20 | 21) || (tag <= 5 && ins.list().unwrap()[1].int() == Some(1)) || (tag == 10 && ins.list().unwrap()[1].int() == Some(1));
         let total = if uses_float { fpairs.len() } else { pairs.len() };
@@ -372,7 +378,9 @@ fn gen(tier: &str, rng: &mut Sm) -> Gen {
     check_universe(&mut g);
     let c = ctx(0);
     let thorough = tier == "thorough";
-    single_cases(&mut g, rng, &c, if thorough { 0 } else { 40 }, thorough);
+    single_cases(&mut g, rng, &c, if thorough { 0 } else { 10 }, thorough);
+    // every instruction on every combination of small stack sizes (empty stacks, missing blocks, ...)
+    lattice(&mut g, rng, &ctx(3), false);
     // literals, blocks and input variables as single steps
     for _ in 0..(if thorough { 3000 } else { 400 }) {
         let c = ctx(3);
@@ -525,6 +533,8 @@ fn gen_c03(tier: &str, rng: &mut Sm) -> Gen {
         let st = tl![A(50), L(vec![p]), A(5), L(vec![]), A(5), L(vec![]), A(5), L(vec![]), L(vec![]), au(3 * d + 10)];
         g.inputs.push(tl![A(0), strings_tree(), st, L(vec![])]);
     }
+    // extreme numeric values: no instruction may panic or abort on them
+    single_cases(&mut g, rng, &c, 0, false);
     // unbound input variable: the documented panic (outside the proviso; model value Panic)
     let st = tl![A(5), L(vec![tl![A(31), A(7)]]), A(5), L(vec![]), A(5), L(vec![]), A(5), L(vec![]), L(vec![]), A(5)];
     g.inputs.push(tl![A(0), strings_tree(), st, L(vec![])]);
